@@ -1080,12 +1080,25 @@ def _graph_origin(ctx: Ctx, f: FuncInfo, a: ast.AST, depth: int = 0) -> str:
 
 
 def _pre_setup_filters(ctx: Ctx) -> bool:
+    """_pre_setup removes from the graph it returns every node of THAT graph that is not a setup node."""
     ps = ctx.method("BaseDAG", "_pre_setup")
+    rets = [n for n in iter_own_nodes(ps.node) if isinstance(n, ast.Return) and n.value is not None]
+    if len(rets) != 1 or not isinstance(rets[0].value, ast.Name):
+        return False
+    gname = rets[0].value.id
     for n in iter_own_nodes(ps.node):
-        if isinstance(n, ast.Call) and isinstance(n.func, ast.Attribute) and n.func.attr == "remove_nodes_from" and n.args:
-            s = norm_src(n.args[0])
-            if "not in" in s and "setup_nodes" in s:
-                return True
+        if isinstance(n, ast.Call) and isinstance(n.func, ast.Attribute) and n.func.attr == "remove_nodes_from" and n.args \
+                and dotted(n.func.value) == gname:
+            a = n.args[0]
+            if isinstance(a, (ast.ListComp, ast.SetComp, ast.GeneratorExp)) and len(a.generators) == 1 and len(a.generators[0].ifs) == 1:
+                gen = a.generators[0]
+                it = gen.iter
+                over_graph = dotted(it) == gname or (isinstance(it, ast.Attribute) and dotted(it.value) == gname and it.attr == "nodes") or \
+                    (isinstance(it, ast.Call) and dotted(it.func) in ("list", "set", "tuple") and it.args and dotted(it.args[0]) in (gname, f"{gname}.nodes"))
+                flt = norm_src(gen.ifs[0])
+                var = dotted(gen.target)
+                if over_graph and flt.startswith(f"{var} not in ") and flt.endswith("setup_nodes") and dotted(a.elt) == var:
+                    return True
     return False
 
 
@@ -1121,6 +1134,14 @@ def gt_debuginc(ctx: Ctx) -> RuleResult:
     r.require(len(pred_exprs) >= 1, "include_debug_nodes: no test on the predecessors of the candidate guards its inclusion")
     filtered = [c for x in pred_exprs for c in ast.walk(x) if isinstance(c, (ast.GeneratorExp, ast.ListComp, ast.SetComp))
                 and "predecessors" in norm_src(c.generators[0].iter) and c.generators[0].ifs]
+    # the tested set must be ALL predecessors: a difference / intersection / filtered comprehension removes some of them
+    for x in pred_exprs:
+        for c in ast.walk(x):
+            if isinstance(c, ast.BinOp) and isinstance(c.op, (ast.Sub, ast.BitAnd)) and "predecessors" in norm_src(c.left):
+                filtered.append(c)
+            if isinstance(c, ast.Call) and isinstance(c.func, ast.Attribute) and c.func.attr in ("difference", "intersection") \
+                    and "predecessors" in norm_src(c.func.value):
+                filtered.append(c)
     weak = [x for x in exprs if (isinstance(x, ast.Call) and dotted(x.func) == "any") or "isdisjoint" in norm_src(x) or ".intersection(" in norm_src(x)]
     subset = [x for x in exprs if isinstance(x, ast.Call) and isinstance(x.func, ast.Attribute) and x.func.attr == "issubset" and p in names_in(x)] + \
         [x for x in exprs if isinstance(x, ast.Call) and dotted(x.func) == "all" and "predecessors" in norm_src(x)]
@@ -1133,6 +1154,19 @@ def gt_debuginc(ctx: Ctx) -> RuleResult:
                   "filtered out of the test (or an 'any' test) is not computed and the debug node runs on None", norm_src(bad)[:200])
     elif not subset:
         raise Undecided("include_debug_nodes: inclusion test not recognised: " + "; ".join(norm_src(t) for t in tests))
+    # termination of the fix-point loop: the "something changed" flag is raised only together with an addition
+    wl = [n for n in iter_own_nodes(f.node) if isinstance(n, ast.While) and isinstance(n.test, ast.Name)]
+    if wl:
+        flag = wl[0].test.id
+        sets = [n for n in own_walk(wl[0]) if isinstance(n, ast.Assign) and dotted(n.targets[0]) == flag
+                and isinstance(n.value, ast.Constant) and n.value.value is True]
+        for st in sets:
+            okp = chains.get(id(st), ()) == chains.get(id(adds[0]), ())
+            r.ob(okp, {"fix-point flag raised under the same conditions as the addition": okp})
+            if not okp:
+                r.violate("DiGraphEx.include_debug_nodes: the fix-point flag is raised without an addition", f.loc(st),
+                          "the loop repeats while 'something was discovered'; raising the flag for a candidate that is not added makes "
+                          "the loop spin forever (executor construction never returns)", [norm_src(t) for t, v in chains.get(id(st), ())])
     # only debug successors not already selected are candidates
     cand = [t for t in tests if "debug_nodes" in norm_src(t) or ".debug" in norm_src(t)]
     r.ob(len(cand) >= 1, {"candidate test": norm_src(cand[0]) if cand else None})
